@@ -267,6 +267,7 @@ def run(ctx):
     ctx.extra['skipped_unsupported'] = common.compare_with_model(ctx, setup_lines + cases)
     import cli_common
     cli_common.cli_suite(ctx, ctx.budget(16, 160))      # the same through the command line itself
+    cli_common.read_params_suite(ctx, ctx.budget(12, 120))
     common.conclude(ctx)
 
 
